@@ -3,7 +3,7 @@
    reference frame parser/builder, vendor control decoder / status layout). *)
 From MS Require Import lib.Base gen.GenConst gen.GenDev model.Frame model.Command model.Response model.Device model.Lan
   spec.RefFrame spec.RefAC spec.RefLan spec.RefDevice
-  proofs.ControlProofs proofs.StateProofs proofs.LanV2Proofs proofs.LanV3Proofs proofs.StreamProofs proofs.E2EProofs.
+  model.Session proofs.ControlProofs proofs.StateProofs proofs.LanV2Proofs proofs.LanV3Proofs proofs.StreamProofs proofs.E2EProofs.
 Local Open Scope N_scope.
 
 (* APPLY, V2: for EVERY settable attribute state (13.0-43.5 C in half degrees, modes 0-7, fan 0-127, swing nibble, humidity
@@ -92,6 +92,18 @@ Print Assumptions C01_stream_v3.
 Theorem C01_v2_split_refuted : forall p n, v2_len p = length p -> (n < length p)%nat -> v2_decode (firstn n p) = Err EProtocol.
 Proof. exact v2_segment_rejected. Qed.
 Print Assumptions C01_v2_split_refuted.
+
+(* K3 (known finding), as a kernel-checked witness in the session model (which agrees with the real LAN.send on whole histories,
+   C07/C08): the appliance answers every request with an unsolicited report (frames 10, 20, 30) and, 3 ms later, the reply
+   proper (11, 21, 31) on one serialised stream.  The second request is answered by the FIRST exchange's late reply and the
+   third by the report belonging to the second: every exchange is one packet behind, which is how refresh() comes to show
+   an earlier state.  Responses are not correlated with requests. *)
+Theorem C01_replies_not_correlated :
+  fst (run_ops [OSend 1 3; OSend 2 3; OSend 3 3]
+         (world_init [ConnOk] [] [[(0, RFrame 10); (3, RFrame 11)]; [(6, RFrame 20); (9, RFrame 21)]; [(6, RFrame 30); (9, RFrame 31)]]))
+  = [OutFrames [10]; OutFrames [11]; OutFrames [20]].
+Proof. vm_compute. reflexivity. Qed.
+Print Assumptions C01_replies_not_correlated.
 
 Example C01_nonvacuous :
   (* astate0 with 30.5 C heat: its status frame through Response.construct and the attribute update reads 61 half degrees *)
